@@ -1,5 +1,5 @@
-(* C12 - proofs about the DAP messaging layer model (ModelDapWire.v). *)
-From BS Require Import Model.Base.
+(* C12 - proofs about the DAP messaging layer model (DapWire.v). *)
+From BS Require Import Model.Base Gen.Dap.
 From BS Require Import Model.DapWire.
 From Coq Require Import Lia.
 Open Scope N_scope.
@@ -57,6 +57,8 @@ Proof. induction bs as [|b bs IH]; intros s; [reflexivity|]. rewrite emit_cons, 
 Lemma emit_thread_cache : forall bs s, thread_cache (emit bs s) = thread_cache s.
 Proof. induction bs as [|b bs IH]; intros s; [reflexivity|]. rewrite emit_cons, IH. reflexivity. Qed.
 Lemma emit_events : forall bs s, events (emit bs s) = events s.
+Proof. induction bs as [|b bs IH]; intros s; [reflexivity|]. rewrite emit_cons, IH. reflexivity. Qed.
+Lemma emit_last_responded : forall bs s, last_responded (emit bs s) = last_responded s.
 Proof. induction bs as [|b bs IH]; intros s; [reflexivity|]. rewrite emit_cons, IH. reflexivity. Qed.
 
 Lemma set_terminated_emit : forall bs v s, set_terminated v (emit bs s) = emit bs (set_terminated v s).
@@ -165,6 +167,11 @@ Proof. intros [W _]. unfold bodies. rewrite W, map_app, numbered_bodies. reflexi
 Lemma emits_send_raw b s : emits s (send_raw b s) [b].
 Proof. split; cbn [send_raw wire server_seq numbered length]; [reflexivity|lia]. Qed.
 
+Lemma emits_send_response r c ok s : emits s (send_response r c ok s) [Response r c ok].
+Proof.
+  split; cbn [send_response set_last_responded send_raw wire server_seq numbered length]; [reflexivity|lia].
+Qed.
+
 Lemma emits_drain s : emits s (drain_events s) (drain_bodies s).
 Proof.
   rewrite drain_events_emit. destruct (drain_local_frame s) as [W S].
@@ -173,22 +180,24 @@ Qed.
 
 Lemma enqueue_fold_frame : forall (f : Z -> ievent) l s,
   let s' := fold_left (fun s i => enqueue (f i) s) l s in
-  wire s' = wire s /\ server_seq s' = server_seq s /\ terminated s' = terminated s.
+  wire s' = wire s /\ server_seq s' = server_seq s /\ terminated s' = terminated s /\
+  last_responded s' = last_responded s.
 Proof.
   intros f. induction l as [|x l IH]; intros s; cbn [fold_left]; [auto|].
-  destruct (IH (enqueue (f x) s)) as (A & B & C). cbn zeta in *. rewrite A, B, C. auto.
+  destruct (IH (enqueue (f x) s)) as (A & B & C & D). cbn zeta in *. rewrite A, B, C, D. auto.
 Qed.
 
 Lemma refresh_threads_frame ids s :
   wire (refresh_threads ids s) = wire s /\ server_seq (refresh_threads ids s) = server_seq s /\
-  terminated (refresh_threads ids s) = terminated s.
+  terminated (refresh_threads ids s) = terminated s /\
+  last_responded (refresh_threads ids s) = last_responded s.
 Proof.
-  unfold refresh_threads. cbn [set_thread_cache wire server_seq terminated].
+  unfold refresh_threads. cbn [set_thread_cache wire server_seq terminated last_responded].
   match goal with |- context [fold_left _ ?l2 (fold_left _ ?l1 s)] =>
-    destruct (enqueue_fold_frame (fun i => IThread false i) l1 s) as (A1 & B1 & C1);
-    destruct (enqueue_fold_frame (fun i => IThread true i) l2 (fold_left (fun s i => enqueue (IThread false i) s) l1 s)) as (A2 & B2 & C2)
+    destruct (enqueue_fold_frame (fun i => IThread false i) l1 s) as (A1 & B1 & C1 & D1);
+    destruct (enqueue_fold_frame (fun i => IThread true i) l2 (fold_left (fun s i => enqueue (IThread false i) s) l1 s)) as (A2 & B2 & C2 & D2)
   end.
-  cbn zeta in *. rewrite A2, B2, C2, A1, B1, C1. auto.
+  cbn zeta in *. rewrite A2, B2, C2, D2, A1, B1, C1, D1. auto.
 Qed.
 
 Definition prim_bodies (rseq : Z) (cmd : N) (p : prim) (s : st) : list body :=
@@ -202,7 +211,7 @@ Definition prim_bodies (rseq : Z) (cmd : N) (p : prim) (s : st) : list body :=
 Lemma emits_prim r c p s : emits s (run_prim r c p s) (prim_bodies r c p s).
 Proof.
   destruct p; cbn [run_prim prim_bodies].
-  - apply emits_send_raw.
+  - apply emits_send_response.
   - apply emits_send_raw.
   - apply emits_nil; reflexivity.
   - apply emits_drain.
@@ -220,21 +229,23 @@ Proof.
     eapply emits_trans; [apply emits_prim|exact Hbs].
 Qed.
 
-Lemma emits_dispatch r c h s : exists bs, emits s (fst (dispatch_one r c h s)) bs.
+Lemma emits_dispatch g r c h s : exists bs, emits s (fst (dispatch_one_gen g r c h s)) bs.
 Proof.
-  unfold dispatch_one. destruct (emits_body r c (s_body h) s) as [bs Hbs].
-  destruct (s_fail h); cbn [fst].
-  - exists (bs ++ [Response r c false]). eapply emits_trans; [exact Hbs|apply emits_send_raw].
+  unfold dispatch_one_gen. destruct (emits_body r c (s_body h) (set_last_responded None s)) as [bs Hbs].
+  change (emits s (run_body r c (s_body h) (set_last_responded None s)) bs) in Hbs.
+  destruct (s_fail h); [|exists bs; exact Hbs].
+  match goal with |- context [if ?b then _ else _] => destruct b end; cbn [fst].
   - exists bs. exact Hbs.
+  - exists (bs ++ [Response r c false]). eapply emits_trans; [exact Hbs|apply emits_send_response].
 Qed.
 
-Lemma emits_run : forall ins s, exists bs, emits s (run ins s) bs.
+Lemma emits_run g : forall ins s, exists bs, emits s (run_gen g ins s) bs.
 Proof.
-  induction ins as [|i ins IH]; intros s; cbn [run].
+  induction ins as [|i ins IH]; intros s; cbn [run_gen].
   - eexists. apply emits_drain.
   - destruct i as [r c h| |].
-    + destruct (emits_dispatch r c h (drain_events s)) as [b1 H1].
-      destruct (dispatch_one r c h (drain_events s)) as [s' cont] eqn:E. cbn [fst] in H1.
+    + destruct (emits_dispatch g r c h (drain_events s)) as [b1 H1].
+      destruct (dispatch_one_gen g r c h (drain_events s)) as [s' cont] eqn:E. cbn [fst] in H1.
       destruct cont.
       * destruct (IH s') as [b2 H2]. eexists.
         eapply emits_trans; [apply emits_drain|]. eapply emits_trans; [exact H1|exact H2].
@@ -280,19 +291,24 @@ Proof.
 Qed.
 
 (* the session thread alone: for ANY request list and ANY handler scripts (failing or not)
-   the wire is numbered 1,2,3,... *)
-Theorem seq_single_thread : forall ins, seqs_consecutive (wire (run ins init_st)).
+   the wire is numbered 1,2,3,... - with either run loop *)
+Theorem seq_single_thread_gen : forall g ins, seqs_consecutive (wire (run_gen g ins init_st)).
 Proof.
-  intros ins. apply seqs_consecutiveb_iff.
-  destruct (emits_run ins init_st) as [bs [W _]]. rewrite W.
+  intros g ins. apply seqs_consecutiveb_iff.
+  destruct (emits_run g ins init_st) as [bs [W _]]. rewrite W.
   cbn [init_st wire server_seq app]. apply seqs_fromb_numbered.
 Qed.
+Theorem seq_single_thread : forall ins, seqs_consecutive (wire (run ins init_st)).
+Proof. intros ins. unfold run. apply seq_single_thread_gen. Qed.
 
-Lemma run_wire_numbered ins : wire (run ins init_st) = numbered 1 (bodies (run ins init_st)).
+Lemma run_gen_wire_numbered g ins :
+  wire (run_gen g ins init_st) = numbered 1 (bodies (run_gen g ins init_st)).
 Proof.
-  destruct (emits_run ins init_st) as [bs H]. rewrite (emits_bodies _ _ _ H).
+  destruct (emits_run g ins init_st) as [bs H]. rewrite (emits_bodies _ _ _ H).
   destruct H as [W _]. rewrite W. reflexivity.
 Qed.
+Lemma run_wire_numbered ins : wire (run ins init_st) = numbered 1 (bodies (run ins init_st)).
+Proof. unfold run. apply run_gen_wire_numbered. Qed.
 
 (* same for any sequence of primitive calls (the harness's case (a)) *)
 Theorem seq_calls : forall cs, seqs_consecutive (wire (run_calls cs init_st)).
@@ -304,7 +320,7 @@ Proof.
     - destruct (IH (run_call c s)) as [b2 H2].
       assert (H1 : exists b1, emits s (run_call c s) b1).
       { destruct c; cbn [run_call].
-        - eexists; apply emits_send_raw.
+        - eexists; apply emits_send_response.
         - eexists; apply (emits_prim 0 0 PInitialized).
         - exists []. apply emits_nil; reflexivity.
         - eexists; apply emits_drain.
@@ -426,17 +442,21 @@ Proof.
     destruct (is_respond p); reflexivity.
 Qed.
 
-Lemma dispatch_resp r c h s :
-  resp_proj (bodies (fst (dispatch_one r c h s))) = resp_proj (bodies s) ++ repeat (r, c) (resp_count h) /\
-  snd (dispatch_one r c h s) = (s_fail h || s_cont h).
+(* the run loop before 4335108 (guard = false) *)
+Lemma dispatch_resp_old r c h s :
+  resp_proj (bodies (fst (dispatch_one_gen false r c h s))) = resp_proj (bodies s) ++ repeat (r, c) (resp_count h) /\
+  snd (dispatch_one_gen false r c h s) = (s_fail h || s_cont h).
 Proof.
-  unfold dispatch_one, resp_count. destruct (s_fail h); cbn [fst snd orb]; split; try reflexivity.
-  - unfold send_response. rewrite (emits_bodies _ _ _ (emits_send_raw _ _)), resp_proj_app, run_body_resp.
+  unfold dispatch_one_gen, resp_count. cbn [andb].
+  pose proof (run_body_resp r c (s_body h) (set_last_responded None s)) as R.
+  change (bodies (set_last_responded None s)) with (bodies s) in R.
+  destruct (s_fail h); cbn [fst snd orb]; split; try reflexivity.
+  - rewrite (emits_bodies _ _ _ (emits_send_response _ _ _ _)), resp_proj_app, R.
     rewrite repeat_app, <- app_assoc. reflexivity.
-  - rewrite run_body_resp, Nat.add_0_r. reflexivity.
+  - rewrite R, Nat.add_0_r. reflexivity.
 Qed.
 
-(* the responses the model produces, for arbitrary scripts *)
+(* the responses the OLD run loop produces, for arbitrary scripts *)
 Fixpoint expected (ins : list input) : list (Z * N) :=
   match ins with
   | [] => []
@@ -445,14 +465,14 @@ Fixpoint expected (ins : list input) : list (Z * N) :=
   | InReq r c h :: t => repeat (r, c) (resp_count h) ++ (if s_fail h || s_cont h then expected t else [])
   end.
 
-Theorem responses_general : forall ins s,
-  resp_proj (bodies (run ins s)) = resp_proj (bodies s) ++ expected ins.
+Theorem responses_general_old : forall ins s,
+  resp_proj (bodies (run_gen false ins s)) = resp_proj (bodies s) ++ expected ins.
 Proof.
-  induction ins as [|i ins IH]; intros s; cbn [run expected].
+  induction ins as [|i ins IH]; intros s; cbn [run_gen expected].
   - rewrite drain_resp, app_nil_r. reflexivity.
   - destruct i as [r c h| |].
-    + destruct (dispatch_resp r c h (drain_events s)) as [H1 H2].
-      destruct (dispatch_one r c h (drain_events s)) as [s' cont]. cbn [fst snd] in H1, H2.
+    + destruct (dispatch_resp_old r c h (drain_events s)) as [H1 H2].
+      destruct (dispatch_one_gen false r c h (drain_events s)) as [s' cont]. cbn [fst snd] in H1, H2.
       rewrite <- H2. rewrite drain_resp in H1. destruct cont.
       * rewrite IH, H1, <- app_assoc. reflexivity.
       * rewrite H1, app_nil_r. reflexivity.
@@ -463,11 +483,11 @@ Qed.
 (* if every handler answers exactly once on its path (counting the run loop's error
    response for a failing handler), every consumed request gets exactly one response, with
    its request_seq and command, in request order *)
-Theorem one_response : forall ins,
+Theorem one_response_old : forall ins,
   forallb input_onceb ins = true ->
-  one_response_per_request (processed ins) (bodies (run ins init_st)).
+  one_response_per_request (processed ins) (bodies (run_gen false ins init_st)).
 Proof.
-  intros ins H. unfold one_response_per_request. rewrite responses_general. cbn [init_st bodies wire map resp_proj filter_map app].
+  intros ins H. unfold one_response_per_request. rewrite responses_general_old. cbn [init_st bodies wire map resp_proj filter_map app].
   induction ins as [|i ins IH]; [reflexivity|].
   cbn [forallb] in H. apply andb_true_iff in H. destruct H as [H1 H2].
   destruct i as [r c h| |]; cbn [expected processed].
@@ -478,15 +498,120 @@ Proof.
 Qed.
 
 (* ---- A.3 a failing handler is answered with an error response, and the loop goes on ---- *)
-Theorem error_response : forall r c h s,
+Theorem error_response_old : forall r c h s,
   s_fail h = true ->
-  error_response_for_failing_request r c (bodies s) (bodies (fst (dispatch_one r c h s))) /\
-  snd (dispatch_one r c h s) = true.
+  error_response_for_failing_request r c (bodies s) (bodies (fst (dispatch_one_gen false r c h s))) /\
+  snd (dispatch_one_gen false r c h s) = true.
 Proof.
-  intros r c h s Hf. unfold dispatch_one. rewrite Hf. cbn [fst snd]. split; [|reflexivity].
-  destruct (emits_body r c (s_body h) s) as [bs Hbs]. exists bs.
-  unfold send_response. rewrite (emits_bodies _ _ _ (emits_send_raw _ _)), (emits_bodies _ _ _ Hbs), app_assoc.
+  intros r c h s Hf. unfold dispatch_one_gen. rewrite Hf. cbn [andb fst snd]. split; [|reflexivity].
+  destruct (emits_body r c (s_body h) (set_last_responded None s)) as [bs Hbs]. exists bs.
+  rewrite (emits_bodies _ _ _ (emits_send_response _ _ _ _)), (emits_bodies _ _ _ Hbs), app_assoc.
   reflexivity.
+Qed.
+
+(* ---- A.3' the run loop now (guard = true, mod.rs:678 and :684) ---- *)
+
+Lemma drain_last s : last_responded (drain_events s) = last_responded s.
+Proof.
+  rewrite drain_events_emit, emit_last_responded. unfold drain_local.
+  destruct (terminated s); [reflexivity|]. destruct (scan_exit (events s)); [reflexivity|].
+  destruct (scan_terminated (events s)); reflexivity.
+Qed.
+
+Lemma run_prim_last r c p s :
+  last_responded (run_prim r c p s) = if is_respond p then Some r else last_responded s.
+Proof.
+  destruct p; cbn [run_prim is_respond]; try reflexivity.
+  - apply drain_last.
+  - destruct (refresh_threads_frame ids s) as (_ & _ & _ & D). exact D.
+Qed.
+
+Lemma count_resp_cons p ps : count_resp (p :: ps) = ((if is_respond p then 1 else 0) + count_resp ps)%nat.
+Proof. unfold count_resp. cbn [filter]. fold (is_respond p). destruct (is_respond p); reflexivity. Qed.
+
+Lemma run_body_last r c : forall ps s,
+  last_responded (run_body r c ps s) =
+  if Nat.eqb (count_resp ps) 0 then last_responded s else Some r.
+Proof.
+  induction ps as [|p ps IH]; intros s; [reflexivity|].
+  unfold run_body in *. cbn [fold_left]. rewrite IH, run_prim_last, count_resp_cons.
+  destruct (is_respond p); cbn [Nat.add]; [|reflexivity].
+  destruct (Nat.eqb (count_resp ps) 0); reflexivity.
+Qed.
+
+(* the condition: on the path taken the handler sends exactly one response if it returns
+   Ok and at most one if it returns Err.  Nothing is asked of the request seqs: mod.rs:678
+   clears last_responded_request before every dispatch. *)
+Definition at_most_onceb (h : script) : bool :=
+  let n := count_resp (s_body h) in
+  if s_fail h then Nat.leb n 1 else Nat.eqb n 1.
+Definition input_at_most_onceb (i : input) : bool :=
+  match i with InReq _ _ h => at_most_onceb h | _ => true end.
+
+Lemma dispatch_guarded r c h s :
+  at_most_onceb h = true ->
+  resp_proj (bodies (fst (dispatch_one_gen true r c h s))) = resp_proj (bodies s) ++ [(r, c)] /\
+  snd (dispatch_one_gen true r c h s) = (s_fail h || s_cont h).
+Proof.
+  intros HS. unfold at_most_onceb in HS. unfold dispatch_one_gen, guard_hit. cbn [andb].
+  pose proof (run_body_last r c (s_body h) (set_last_responded None s)) as L.
+  pose proof (run_body_resp r c (s_body h) (set_last_responded None s)) as R.
+  change (bodies (set_last_responded None s)) with (bodies s) in R.
+  change (last_responded (set_last_responded None s)) with (@None Z) in L.
+  destruct (s_fail h); cbn [orb].
+  - apply Nat.leb_le in HS. destruct (count_resp (s_body h)) as [|[|n]]; [| |lia].
+    + cbn [Nat.eqb repeat] in L, R. rewrite app_nil_r in R. rewrite L. cbn [fst snd].
+      rewrite (emits_bodies _ _ _ (emits_send_response _ _ _ _)), resp_proj_app, R. auto.
+    + cbn [Nat.eqb] in L. rewrite L, Z.eqb_refl. cbn [fst snd]. rewrite R. auto.
+  - apply Nat.eqb_eq in HS. rewrite HS in R. cbn [fst snd]. rewrite R. auto.
+Qed.
+
+Theorem responses_guarded : forall ins s,
+  forallb input_at_most_onceb ins = true ->
+  resp_proj (bodies (run_gen true ins s)) = resp_proj (bodies s) ++ processed ins.
+Proof.
+  induction ins as [|i ins IH]; intros s H; cbn [run_gen processed].
+  - rewrite drain_resp, app_nil_r. reflexivity.
+  - cbn [forallb] in H. apply andb_true_iff in H. destruct H as [H1 H2].
+    destruct i as [r c h| |].
+    + destruct (dispatch_guarded r c h (drain_events s) H1) as (R & C).
+      destruct (dispatch_one_gen true r c h (drain_events s)) as [s' cont]. cbn [fst snd] in R, C.
+      rewrite <- C. rewrite drain_resp in R. destruct cont.
+      * rewrite (IH s' H2), R, <- app_assoc. reflexivity.
+      * rewrite R. reflexivity.
+    + rewrite (IH (drain_events s) H2), drain_resp. reflexivity.
+    + rewrite drain_resp, app_nil_r. reflexivity.
+Qed.
+
+(* HEADLINE (current source): every consumed request gets exactly one response with its seq
+   and command, in request order - including handlers that answer and fail afterwards, and
+   whatever seqs the client uses (repeated, out of order) *)
+Theorem one_response_guarded : forall ins,
+  forallb input_at_most_onceb ins = true ->
+  one_response_per_request (processed ins) (bodies (run_gen true ins init_st)).
+Proof.
+  intros ins H. unfold one_response_per_request.
+  rewrite (responses_guarded ins init_st H). reflexivity.
+Qed.
+
+(* a failing handler: answered with an error response iff it has not answered itself *)
+Theorem error_response_guarded : forall r c h s,
+  s_fail h = true ->
+  snd (dispatch_one_gen true r c h s) = true /\
+  (count_resp (s_body h) = 0%nat ->
+     error_response_for_failing_request r c (bodies s) (bodies (fst (dispatch_one_gen true r c h s)))) /\
+  (count_resp (s_body h) <> 0%nat ->
+     fst (dispatch_one_gen true r c h s) = run_body r c (s_body h) (set_last_responded None s)).
+Proof.
+  intros r c h s Hf. unfold dispatch_one_gen, guard_hit. rewrite Hf. cbn [andb].
+  pose proof (run_body_last r c (s_body h) (set_last_responded None s)) as L.
+  change (last_responded (set_last_responded None s)) with (@None Z) in L.
+  split; [|split].
+  - match goal with |- context [if ?b then _ else _] => destruct b end; reflexivity.
+  - intros H0. rewrite H0 in L. cbn [Nat.eqb] in L. rewrite L. cbn [fst].
+    destruct (emits_body r c (s_body h) (set_last_responded None s)) as [bs Hbs]. exists bs.
+    rewrite (emits_bodies _ _ _ (emits_send_response _ _ _ _)), (emits_bodies _ _ _ Hbs), app_assoc. reflexivity.
+  - intros HN. apply Nat.eqb_neq in HN. rewrite HN in L. rewrite L, Z.eqb_refl. reflexivity.
 Qed.
 
 (* ---- A.4 lifecycle events ---- *)
@@ -682,10 +807,13 @@ Proof.
   exists ph. split; [|exact P]. destruct b; [reflexivity|discriminate].
 Qed.
 
+Lemma linv_set_last mt x s : LInv mt s -> LInv mt (set_last_responded x s).
+Proof. intros H. exact H. Qed.
+
 Lemma linv_prim r c p s mt mt' : prim_scan mt p = Some mt' -> LInv mt s -> LInv mt' (run_prim r c p s).
 Proof.
   intros Hs HI. destruct p; cbn [prim_scan] in Hs; cbn [run_prim].
-  - inversion Hs; subst. apply linv_respond; [reflexivity|exact HI].
+  - inversion Hs; subst. unfold send_response. apply linv_set_last. apply linv_respond; [reflexivity|exact HI].
   - destruct mt; inversion Hs; subst. destruct HI as [(ph & L & P) Q].
     destruct (Q eq_refl) as [T Qe]. split; [|intros _; split; assumption].
     unfold send_event. rewrite (emits_bodies _ _ _ (emits_send_raw _ s)), life_run_app, L, (P T).
@@ -701,7 +829,7 @@ Proof.
     + exists ph. split; [exact L|]. intros _. exact (P T).
     + intros _. split; [reflexivity|exact Qe].
   - inversion Hs; subst. destruct HI as [(ph & L & P) Q].
-    destruct (refresh_threads_frame ids s) as (W & _ & T). split.
+    destruct (refresh_threads_frame ids s) as (W & _ & T & _). split.
     + exists ph. unfold bodies. rewrite W, T. split; assumption.
     + intros M. destruct (Q M) as [T0 Qe]. rewrite T. split; [exact T0|].
       apply refresh_threads_quiet. exact Qe.
@@ -717,17 +845,19 @@ Proof.
     unfold run_body in *. cbn [fold_left]. eapply IH; [exact Hs|]. eapply linv_prim; eassumption.
 Qed.
 
-Lemma linv_run : forall ins s mt, scan_inputs mt ins = true -> LInv mt s -> exists mt', LInv mt' (run ins s).
+Lemma linv_run g : forall ins s mt, scan_inputs mt ins = true -> LInv mt s -> exists mt', LInv mt' (run_gen g ins s).
 Proof.
-  induction ins as [|i ins IH]; intros s mt Hs HI; cbn [run].
+  induction ins as [|i ins IH]; intros s mt Hs HI; cbn [run_gen].
   - exists mt. apply linv_drain. exact HI.
   - destruct i as [r c h| |]; cbn [scan_inputs] in Hs.
     + destruct (scan_prims mt (s_body h)) as [m1|] eqn:E; [|discriminate].
-      assert (H1 : LInv m1 (fst (dispatch_one r c h (drain_events s)))).
-      { unfold dispatch_one.
-        pose proof (linv_body r c _ _ _ _ E (linv_drain _ _ HI)) as HB.
-        destruct (s_fail h); cbn [fst]; [|exact HB]. apply linv_respond; [reflexivity|exact HB]. }
-      destruct (dispatch_one r c h (drain_events s)) as [s' cont]. cbn [fst] in H1.
+      assert (H1 : LInv m1 (fst (dispatch_one_gen g r c h (drain_events s)))).
+      { unfold dispatch_one_gen.
+        pose proof (linv_body r c _ _ _ _ E (linv_set_last _ None _ (linv_drain _ _ HI))) as HB.
+        destruct (s_fail h); cbn [fst]; [|exact HB].
+        match goal with |- context [if ?b then _ else _] => destruct b end; cbn [fst]; [exact HB|].
+        unfold send_response. apply linv_set_last. apply linv_respond; [reflexivity|exact HB]. }
+      destruct (dispatch_one_gen g r c h (drain_events s)) as [s' cont]. cbn [fst] in H1.
       destruct cont; [eapply IH; eassumption|exists m1; exact H1].
     + eapply IH; [exact Hs|]. apply linv_drain. exact HI.
     + exists mt. apply linv_drain. exact HI.
@@ -737,18 +867,22 @@ Qed.
    It is false of the model without the hypothesis (see the _refuted theorems below):
    handle_initialize sends [initialized] outside the queue, and a second launch resets the
    latch.  Proved for sessions with one debuggee: *)
+Theorem lifecycle_partial_gen : forall g ins,
+  single_debuggee_b ins = true ->
+  lifecycle_once (bodies (run_gen g ins init_st)) /\ no_event_after_terminated (bodies (run_gen g ins init_st)).
+Proof.
+  intros g ins H. apply lifecycle_okb_sound.
+  assert (I0 : LInv false init_st).
+  { split; [exists Live; split; reflexivity|intros _; split; reflexivity]. }
+  destruct (linv_run g ins init_st false H I0) as [mt' [(ph & L & _) _]].
+  unfold lifecycle_okb. rewrite L. reflexivity.
+Qed.
 Theorem lifecycle_partial : forall ins,
   single_debuggee_b ins = true ->
   lifecycle_once (bodies (run ins init_st)) /\ no_event_after_terminated (bodies (run ins init_st)).
-Proof.
-  intros ins H. apply lifecycle_okb_sound.
-  assert (I0 : LInv false init_st).
-  { split; [exists Live; split; reflexivity|intros _; split; reflexivity]. }
-  destruct (linv_run ins init_st false H I0) as [mt' [(ph & L & _) _]].
-  unfold lifecycle_okb. rewrite L. reflexivity.
-Qed.
+Proof. intros ins. unfold run. apply lifecycle_partial_gen. Qed.
 
-(* ---- A.5 what is false of the session thread alone (concrete witnesses) ---- *)
+(* ---- A.5 concrete sessions: what was wrong before the repairs, what still is ---- *)
 
 Definition lastn {A} (n : nat) (l : list A) : list A := skipn (length l - n) l.
 
@@ -761,25 +895,75 @@ Definition CMD_RESTART : N := 19.
 Definition CMD_NEXT : N := 21.
 Definition CMD_DISCONNECT : N := 42.
 
-(* [initialize; continue] : the continue request is answered twice (success, then error),
-   with a [continued] event for a process that does not exist in between *)
-Definition ins_double : list input :=
-  [InReq 1 CMD_INITIALIZE h_initialize; InReq 2 CMD_CONTINUE h_continue_err].
-Theorem double_response_refuted :
-  processed ins_double = [(1%Z, CMD_INITIALIZE); (2%Z, CMD_CONTINUE)] /\
-  bodies (run ins_double init_st) =
+(* A.5.1 repaired by 4335108.  OLD code (guard = false, handle_continue without the early
+   check): [initialize; continue] - the continue request is answered twice (success, then
+   error), with a [continued] event for a process that does not exist in between *)
+Definition ins_double_old : list input :=
+  [InReq 1 CMD_INITIALIZE h_initialize; InReq 2 CMD_CONTINUE h_continue_no_debugger_old].
+Theorem double_response_refuted_old :
+  processed ins_double_old = [(1%Z, CMD_INITIALIZE); (2%Z, CMD_CONTINUE)] /\
+  bodies (run_gen false ins_double_old init_st) =
     [Response 1 CMD_INITIALIZE true; Event EV_INITIALIZED 0;
      Response 2 CMD_CONTINUE true; Event EV_CONTINUED 0; Response 2 CMD_CONTINUE false] /\
-  one_response_per_requestb (processed ins_double) (bodies (run ins_double init_st)) = false.
+  one_response_per_requestb (processed ins_double_old) (bodies (run_gen false ins_double_old init_st)) = false.
 Proof. vm_compute. auto. Qed.
 
-(* disconnect whose detach fails: answered twice, and the run loop does NOT stop (the
-   following request is still consumed and answered) *)
+(* OLD: disconnect whose detach fails: answered twice, and the run loop does not stop *)
 Definition ins_disconnect : list input :=
   [InReq 1 CMD_DISCONNECT h_disconnect_detach_err; InReq 2 CMD_THREADS (h_simple false)].
-Theorem disconnect_double_response_refuted :
-  bodies (run ins_disconnect init_st) =
+Theorem disconnect_double_response_refuted_old :
+  bodies (run_gen false ins_disconnect init_st) =
     [Response 1 CMD_DISCONNECT true; Response 1 CMD_DISCONNECT false; Response 2 CMD_THREADS false].
+Proof. vm_compute. reflexivity. Qed.
+
+(* NOW: the same requests against the current source *)
+Definition ins_double_now : list input :=
+  [InReq 1 CMD_INITIALIZE h_initialize; InReq 2 CMD_CONTINUE h_continue_no_debugger].
+Theorem double_response_now :
+  bodies (run ins_double_now init_st) =
+    [Response 1 CMD_INITIALIZE true; Event EV_INITIALIZED 0; Response 2 CMD_CONTINUE false] /\
+  forallb input_at_most_onceb ins_double_now = true.
+Proof. vm_compute. auto. Qed.
+(* even a handler that still answers and then fails (continue before configurationDone:
+   control.rs:432 then :438) gets one response under the guard; the exact condition holds *)
+Definition ins_respond_then_fail : list input :=
+  [InReq 1 CMD_INITIALIZE h_initialize; InReq 2 CMD_LAUNCH h_launch; InReq 3 CMD_CONTINUE h_continue_err].
+Example respond_then_fail_guard_ok : forallb input_at_most_onceb ins_respond_then_fail = true.
+Proof. vm_compute. reflexivity. Qed.
+Theorem respond_then_fail_now :
+  resp_proj (bodies (run ins_respond_then_fail init_st)) = processed ins_respond_then_fail /\
+  resp_proj (bodies (run_gen false ins_respond_then_fail init_st)) =
+    [(1%Z, CMD_INITIALIZE); (2%Z, CMD_LAUNCH); (3%Z, CMD_CONTINUE); (3%Z, CMD_CONTINUE)].
+Proof. vm_compute. auto. Qed.
+(* disconnect whose detach fails: one response now; what remains is that dispatch still
+   propagates the Err (mod.rs:652), so the run loop goes on reading instead of stopping *)
+Theorem disconnect_detach_err_now :
+  bodies (run ins_disconnect init_st) = [Response 1 CMD_DISCONNECT true; Response 2 CMD_THREADS false].
+Proof. vm_compute. reflexivity. Qed.
+
+(* HISTORIC (intermediate repair 4335108, superseded by ae66bdd): the guard without the
+   reset compared request seqs, not "did this handler answer": a request that fails before
+   answering and carries the same seq as the last answered request got NO response.
+   [initialize seq 1] then [launch seq 1 without program] *)
+Definition ins_repeated_seq : list input :=
+  [InReq 1 CMD_INITIALIZE h_initialize; InReq 1 CMD_LAUNCH h_launch_no_program].
+Theorem silent_repeated_seq_refuted_old :
+  processed ins_repeated_seq = [(1%Z, CMD_INITIALIZE); (1%Z, CMD_LAUNCH)] /\
+  bodies (run_seqguard ins_repeated_seq init_st) = [Response 1 CMD_INITIALIZE true; Event EV_INITIALIZED 0].
+Proof. vm_compute. auto. Qed.
+(* NOW (reset at mod.rs:678): answered, and covered by the headline theorem *)
+Theorem repeated_seq_now :
+  bodies (run ins_repeated_seq init_st) =
+    [Response 1 CMD_INITIALIZE true; Event EV_INITIALIZED 0; Response 1 CMD_LAUNCH false] /\
+  forallb input_at_most_onceb ins_repeated_seq = true.
+Proof. vm_compute. auto. Qed.
+
+(* A.5.2 STILL OPEN in the current source *)
+
+(* a request that fails after its success response is now reported as a success only:
+   continue before configurationDone says "success", [continued], and nothing follows *)
+Theorem failed_continue_reports_success_refuted :
+  lastn 2 (bodies (run ins_respond_then_fail init_st)) = [Response 3 CMD_CONTINUE true; Event EV_CONTINUED 0].
 Proof. vm_compute. reflexivity. Qed.
 
 (* a session that runs the debuggee to its exit *)
@@ -788,6 +972,8 @@ Definition ins_to_exit : list input :=
    InReq 3 CMD_CONFIGURATION_DONE (h_start_stop [100%Z]); InReq 4 CMD_CONTINUE (h_continue_exit 0)].
 
 Example single_debuggee_example : single_debuggee_b (ins_to_exit ++ [InReq 5 CMD_DISCONNECT (h_simple true)]) = true.
+Proof. vm_compute. reflexivity. Qed.
+Example guard_ok_example : forallb input_at_most_onceb (ins_to_exit ++ [InReq 5 CMD_THREADS h_err]) = true.
 Proof. vm_compute. reflexivity. Qed.
 Example one_response_example : forallb input_onceb (ins_to_exit ++ [InReq 5 CMD_THREADS h_err]) = true.
 Proof. vm_compute. reflexivity. Qed.
@@ -843,43 +1029,53 @@ Proof. vm_compute. auto. Qed.
 (* B. Threads                                                         *)
 (* ================================================================== *)
 
-(* B.1 the code as it is: number taken before the lock.  Session thread = thread 0 sends
-   [stopped], forwarder = thread 1 sends [output].
+(* B.1 repaired by 90c36fc.  OLD discipline: number taken before the lock.  Session thread
+   = thread 0 sends [stopped], forwarder = thread 1 sends [output].
    schedule: alloc_A, alloc_B, lock_B, write_B, unlock_B, lock_A, write_A, unlock_A *)
-Theorem seq_interleaved_refuted :
+Theorem seq_interleaved_refuted_old :
   let c := run_sched [0; 1; 1; 1; 1; 0; 0; 0]%nat
              (init_c [compile_real [Some (Event EV_STOPPED 0)]; compile_real (forwarder_blocks 1)]) in
   c_wire c = [Msg 2 (Event EV_OUTPUT 0); Msg 1 (Event EV_STOPPED 0)] /\
   seqs_consecutiveb (c_wire c) = false.
 Proof. vm_compute. auto. Qed.
 
-(* the same with the session thread blocked in read_message while holding the lock
-   (mod.rs:665-668): the forwarder takes its number, waits for the lock; the request
-   arrives, the session thread releases the lock, answers (number 2) and only then the
-   forwarder gets the lock *)
-Theorem seq_interleaved_read_refuted :
+(* OLD, with the session thread blocked in read_message while holding the lock: the forwarder
+   takes its number, waits for the lock; the request arrives, the session thread releases
+   the lock, answers (number 2) and only then the forwarder gets the lock *)
+Theorem seq_interleaved_read_refuted_old :
   let c := run_sched [0; 1; 1; 0; 0; 0; 0; 0; 1; 1; 1]%nat
              (init_c [compile_real [None; Some (Response 7 CMD_THREADS true)]; compile_real (forwarder_blocks 1)]) in
   c_wire c = [Msg 2 (Response 7 CMD_THREADS true); Msg 1 (Event EV_OUTPUT 0)].
 Proof. vm_compute. reflexivity. Qed.
 
-(* B.2 forwarders do not look at the latch: output after [terminated] *)
+(* NOW: the same two schedules against the code's blocks *)
+Theorem seq_interleaved_now :
+  let c1 := run_sched [0; 1; 1; 1; 1; 0; 0; 0]%nat
+             (init_c [compile_code [Some (Event EV_STOPPED 0)]; compile_code (forwarder_blocks 1)]) in
+  let c2 := run_sched [0; 1; 1; 0; 0; 0; 0; 0; 1; 1; 1]%nat
+             (init_c [compile_code [None; Some (Response 7 CMD_THREADS true)]; compile_code (forwarder_blocks 1)]) in
+  seqs_consecutiveb (c_wire c1) = true /\ seqs_consecutiveb (c_wire c2) = true.
+Proof. vm_compute. auto. Qed.
+
+(* B.2 STILL OPEN: forwarders do not look at the latch: output after [terminated]
+   (current code blocks; sequence numbers are fine, the lifecycle is not) *)
 Theorem output_after_terminated_refuted :
+  let session := compile_code (session_blocks ins_to_exit) in
+  let c := run_sched (repeat 0%nat (length session) ++ repeat 1%nat 4)
+             (init_c [session; compile_code (forwarder_blocks 1)]) in
+  lifecycle_okb (map m_body (c_wire c)) = false /\ seqs_consecutiveb (c_wire c) = true /\
+  lastn 3 (c_wire c) = [Msg 19 (Event EV_EXITED 0); Msg 20 (Event EV_TERMINATED 0); Msg 21 (Event EV_OUTPUT 0)].
+Proof. vm_compute. auto. Qed.
+(* it was the same before 90c36fc *)
+Theorem output_after_terminated_refuted_old :
   let session := compile_real (session_blocks ins_to_exit) in
   let c := run_sched (repeat 0%nat (length session) ++ repeat 1%nat 4)
              (init_c [session; compile_real (forwarder_blocks 1)]) in
   lifecycle_okb (map m_body (c_wire c)) = false /\
   lastn 3 (c_wire c) = [Msg 19 (Event EV_EXITED 0); Msg 20 (Event EV_TERMINATED 0); Msg 21 (Event EV_OUTPUT 0)].
 Proof. vm_compute. auto. Qed.
-(* ... and this is independent of where the number is taken *)
-Theorem output_after_terminated_fixed_refuted :
-  let session := compile_fixed (session_blocks ins_to_exit) in
-  let c := run_sched (repeat 0%nat (length session) ++ repeat 1%nat 4)
-             (init_c [session; compile_fixed (forwarder_blocks 1)]) in
-  lifecycle_okb (map m_body (c_wire c)) = false /\ seqs_consecutiveb (c_wire c) = true.
-Proof. vm_compute. auto. Qed.
 
-(* B.3 one thread alone, the code as it is, run to completion = the sequential model *)
+(* B.3 one thread alone, run to completion = the sequential model (both disciplines) *)
 Lemma one_thread_real : forall bs ctr w r,
   let c := run_sched (repeat 0%nat (4 * length bs))
              (CState ctr None w [Thread (compile_real (map Some bs)) r]) in
@@ -895,20 +1091,51 @@ Proof.
     rewrite W, L. cbn [numbered]. rewrite <- app_assoc. auto.
 Qed.
 
-Theorem session_alone_matches_sequential : forall ins,
-  let prog := compile_real (session_blocks ins) in
-  c_wire (run_sched (repeat 0%nat (length prog)) (init_c [prog])) = wire (run ins init_st).
+Lemma one_thread_fixed : forall bs ctr w r,
+  let c := run_sched (repeat 0%nat (4 * length bs))
+             (CState ctr None w [Thread (compile_fixed (map Some bs)) r]) in
+  c_wire c = w ++ numbered ctr bs /\ c_lock c = None.
 Proof.
-  intros ins. cbn zeta. unfold session_blocks.
+  induction bs as [|b bs IH]; intros ctr w r.
+  - cbn. rewrite app_nil_r. auto.
+  - replace (4 * length (b :: bs))%nat with (4 + 4 * length bs)%nat by (cbn [length]; lia).
+    rewrite repeat_app. cbn [repeat app]. cbn [map compile_fixed flat_map fixed_block app].
+    cbn [run_sched step nth_error c_threads t_prog c_lock c_ctr c_wire t_reg upd holds Nat.eqb].
+    fold (compile_fixed (map Some bs)).
+    destruct (IH (ctr + 1) (w ++ [Msg ctr b]) ctr) as [W L]. cbn zeta in W, L.
+    rewrite W, L. cbn [numbered]. rewrite <- app_assoc. auto.
+Qed.
+
+Lemma compile_code_fixed : SEQ_ALLOC_UNDER_LOCK = true -> forall l, compile_code l = compile_fixed l.
+Proof. intros H l. unfold compile_code, compile_fixed, code_send_block. rewrite H. reflexivity. Qed.
+
+Theorem session_alone_matches_sequential_old : forall g ins,
+  let prog := compile_real (map Some (bodies (run_gen g ins init_st))) in
+  c_wire (run_sched (repeat 0%nat (length prog)) (init_c [prog])) = wire (run_gen g ins init_st).
+Proof.
+  intros g ins. cbn zeta.
   assert (L : forall bs, length (compile_real (map Some bs)) = (4 * length bs)%nat).
   { induction bs as [|b bs IH]; [reflexivity|]. cbn [map compile_real flat_map send_block app length] in *.
     fold (compile_real (map Some bs)). rewrite IH. lia. }
   rewrite L. unfold init_c. cbn [map].
-  destruct (one_thread_real (bodies (run ins init_st)) 1 [] 0) as [W _]. cbn zeta in W.
+  destruct (one_thread_real (bodies (run_gen g ins init_st)) 1 [] 0) as [W _]. cbn zeta in W.
+  rewrite W, run_gen_wire_numbered. reflexivity.
+Qed.
+
+Theorem session_alone_matches_sequential : SEQ_ALLOC_UNDER_LOCK = true -> forall ins,
+  let prog := compile_code (session_blocks ins) in
+  c_wire (run_sched (repeat 0%nat (length prog)) (init_c [prog])) = wire (run ins init_st).
+Proof.
+  intros HS ins. cbn zeta. rewrite (compile_code_fixed HS). unfold session_blocks.
+  assert (L : forall bs, length (compile_fixed (map Some bs)) = (4 * length bs)%nat).
+  { induction bs as [|b bs IH]; [reflexivity|]. cbn [map compile_fixed flat_map fixed_block app length] in *.
+    fold (compile_fixed (map Some bs)). rewrite IH. lia. }
+  rewrite L. unfold init_c. cbn [map].
+  destruct (one_thread_fixed (bodies (run ins init_st)) 1 [] 0) as [W _]. cbn zeta in W.
   rewrite W, run_wire_numbered. reflexivity.
 Qed.
 
-(* B.4 the shape of a repair: number taken under the lock.  Any number of threads, any
+(* B.4 number taken under the lock (the code since 90c36fc).  Any number of threads, any
    programs made of such send blocks and of read blocks, ANY schedule. *)
 Inductive lblocks : list action -> Prop :=
 | lb_nil : lblocks []
@@ -1046,3 +1273,28 @@ Proof.
   apply Forall_forall. intros p Hin. apply in_map_iff in Hin. destruct Hin as (l & <- & _).
   apply lblocks_compile_fixed.
 Qed.
+
+(* HEADLINE (current source): the blocks the code uses, as read off the source *)
+Theorem seq_all_schedules_current : SEQ_ALLOC_UNDER_LOCK = true ->
+  forall (threads : list (list (option body))) (sched : list nat),
+  seqs_consecutive (c_wire (run_sched sched (init_c (map compile_code threads)))).
+Proof.
+  intros HS threads sched.
+  rewrite (map_ext _ _ (compile_code_fixed HS)). apply seq_locked_alloc_all_schedules.
+Qed.
+
+Lemma seq_alloc_under_lock_now : SEQ_ALLOC_UNDER_LOCK = true.
+Proof. reflexivity. Qed.
+Lemma run_loop_guard_now : RUN_LOOP_SINGLE_RESPONSE_GUARD = true.
+Proof. reflexivity. Qed.
+
+(* ... and in closed form, for the source as translated today *)
+Theorem seq_all_schedules_now :
+  forall (threads : list (list (option body))) (sched : list nat),
+  seqs_consecutive (c_wire (run_sched sched (init_c (map compile_code threads)))).
+Proof. exact (seq_all_schedules_current seq_alloc_under_lock_now). Qed.
+
+Theorem one_response_now : forall ins,
+  forallb input_at_most_onceb ins = true ->
+  one_response_per_request (processed ins) (bodies (run ins init_st)).
+Proof. exact one_response_guarded. Qed.
